@@ -61,6 +61,10 @@ func checksum(b []byte) int64 {
 
 var methodNames = []string{"GET", "POST", "HEAD", "PUT"}
 
+// literals a retry expression may compare the method with: the four methods, and spellings that differ from them only by
+// case (ids 4-7: never a request's method, so `==` with them is false and `!=` true)
+var methodLits = []string{"GET", "POST", "HEAD", "PUT", "get", "Post", "head", "pUT"}
+
 func methodID(m string) int64 {
 	for i, s := range methodNames {
 		if s == m {
@@ -101,7 +105,7 @@ func decPred(l []int64) (*pnode, []int64) {
 		if len(l) < 3 {
 			return &pnode{kind: 2, invalid: true}, nil
 		}
-		return &pnode{kind: 4, op: l[1], n: l[2], invalid: l[1] < 0 || l[1] > 1 || l[2] < 0 || l[2] > 3}, l[3:]
+		return &pnode{kind: 4, op: l[1], n: l[2], invalid: l[1] < 0 || l[1] > 1 || l[2] < 0 || l[2] > 7}, l[3:]
 	case 5:
 		a, r1 := decPred(l[1:])
 		return &pnode{kind: 5, l: a, invalid: a.invalid}, r1
@@ -148,7 +152,7 @@ func (p *pnode) show() string {
 		}
 		return m + " " + opStr[p.op] + " " + strconv.FormatInt(p.n, 10)
 	case 4:
-		return "RequestMethod() " + opStr[p.op] + " " + strconv.Quote(methodNames[p.n])
+		return "RequestMethod() " + opStr[p.op] + " " + strconv.Quote(methodLits[p.n])
 	default:
 		return "(" + p.l.show() + ")"
 	}
@@ -217,7 +221,7 @@ func genPred(rng *rand.Rand, depth int, out *[]int64) {
 	case 5, 6, 7, 8:
 		*out = append(*out, 3, int64(rng.Intn(6)), 1, hlib.Pick(rng, 200, 201, 204, 304, 404, 500, 500, 502, 502, 503, 504))
 	default:
-		*out = append(*out, 4, int64(rng.Intn(2)), int64(rng.Intn(4)))
+		*out = append(*out, 4, int64(rng.Intn(2)), int64(rng.Intn(8)))
 	}
 }
 
@@ -947,6 +951,10 @@ func (c *bufComp) Gen(rng *rand.Rand, idx int, tier string, targeted bool) hlib.
 		default:
 			h.Cfg = append(h.Cfg, 0, 3, 4, 0, hlib.Pick(rng, 9, 10, 11, 12), 5, 1, 3, 3, 1, 499, 2) // Attempts() <= n && (ResponseCode() > 499 || IsNetworkError())
 		}
+	case r < 6:
+		// the request method against a literal, also one that differs from a method only by case (POST is the most
+		// frequent method below): Attempts() <= n && RequestMethod() ==|!= "lit"
+		h.Cfg = append(h.Cfg, 1, 0, 3, 4, 0, hlib.Pick(rng, 1, 2, 3), 4, int64(rng.Intn(2)), hlib.Pick(rng, 0, 1, 1, 4, 5, 5, 5, 6))
 	default:
 		h.Cfg = append(h.Cfg, 1)
 		genPred(rng, 3, &h.Cfg)
